@@ -793,7 +793,10 @@ class Executor(Exec):
                 return set() if name == "set" else frozenset()
             if isinstance(args[0], ASet):
                 return args[0].copy()
-            return (set if name == "set" else frozenset)(self.concrete_iter(args[0]))
+            items = self.concrete_iter(args[0])
+            if any(is_z3(i) for i in items):
+                return self._distinct_set(items)
+            return (set if name == "set" else frozenset)(items)
         if name == "dict":
             if not args:
                 return dict(kw)
@@ -951,6 +954,10 @@ class Executor(Exec):
                 if pts and all(isinstance(c, (int, float)) for p in pts for c in p):
                     import math
                     return math.dist(*pts)  # concrete points: exact Python semantics
+                u = self._uses("math.dist")
+                if u is not None and getattr(u, "effect", None) is not None:  # by contract: an abstract non-negative distance
+                    from .engine import NS
+                    return u.effect(self, NS({"args": list(args), "kwargs": dict(kw), "recv": None}))
                 raise OutOfSubset("math.dist (use squared distance contract)")
             if name in ("floor", "ceil"):
                 v = args[0]
@@ -966,6 +973,9 @@ class Executor(Exec):
         raise OutOfSubset(f"{mod}.{name}")
 
     def call_container_method(self, recv, name, args, kw):
+        from .values import DSet
+        if isinstance(recv, DSet):
+            raise OutOfSubset(f"method {name} on a set of symbolic elements")
         if isinstance(recv, list):
             if name == "append":
                 recv.append(args[0])
@@ -1081,9 +1091,14 @@ class Executor(Exec):
                 recv.add(args[0] if not is_z3(args[0]) else _no("symbolic element into concrete set"))
                 return None
             if name == "update":
-                recv.update(self.concrete_iter(args[0]))
+                items = self.concrete_iter(args[0])
+                if any(is_z3(i) for i in items):
+                    _no("symbolic element into concrete set")
+                recv.update(items)
                 return None
             if name == "discard":
+                if is_z3(args[0]) or any(is_z3(i) for i in recv):
+                    _no("symbolic discard on a concrete set")
                 recv.discard(args[0])
                 return None
             if name == "copy":
